@@ -11,7 +11,7 @@
    `raft_step`, no two members ever hold different entries at the same committed position.
    It is NOT proved in full here; what is proved is listed below (`_partial`).            *)
 From HV Require Import Proto.RaftNet Proto.PRaftLocal Proto.PRaftElection Proto.PRaftRefine Proto.PRaftLeader
-  Proto.PRaftExamples.
+  Proto.PRaftWf Proto.PRaftExamples.
 
 Definition C40_raft_sms (n : N) : Prop := C40_raft_sms_stmt n.
 
@@ -80,3 +80,17 @@ Proof.
   - exact (proj2 (C40_raft_leader_append_only n g1 g2 S m t H H0)).
 Qed.
 Print Assumptions C40_raft_sms_partial.
+
+(* every log carries the indexes 1,2,3,..; commit index <= log length; emitted <= commit *)
+Theorem C40_raft_log_wf : forall n g, reachable n g -> forall m,
+  log_wf (log (g_st g m)) = true /\ commit (g_st g m) <= len (log (g_st g m)) /\
+  emitted (g_st g m) <= commit (g_st g m).
+Proof. exact reachable_wf. Qed.
+Print Assumptions C40_raft_log_wf.
+
+(* State Machine Safety on the diagonal (a = b of C40_raft_sms): the entries a member has
+   committed never change afterwards *)
+Theorem C40_raft_committed_prefix_stable : forall n g1 g2, reachable n g1 -> gsteps n g1 g2 ->
+  forall a, sms_pair (g_st g1 a) (g_st g2 a).
+Proof. exact committed_prefix_stable. Qed.
+Print Assumptions C40_raft_committed_prefix_stable.
